@@ -37,7 +37,7 @@ func checkC09(c *Ctx, r *Report) {
 		allInstrs(f, func(in ssa.Instruction) {
 			switch x := in.(type) {
 			case *ssa.BinOp:
-				if (x.Op == token.EQL || x.Op == token.NEQ) && isLoadOfField(eaT + ".heapIndex")(strip2(x.X)) {
+				if (x.Op == token.EQL || x.Op == token.NEQ) && isLoadOfField(eaT+".heapIndex")(strip2(x.X)) {
 					if k, ok := constInt(x.Y); ok && k == -1 {
 						notInHeap = append(notInHeap, x)
 					}
@@ -166,7 +166,7 @@ func checkC09(c *Ctx, r *Report) {
 		}
 		r1.Check(ok, pa("PopIfExpired")+": popped entry leaves the map too", f.Pos(), 2, "", "an expired entry leaves the heap but stays listed", "")
 		// pop only when expired: past !now.Before(NextExpiry()) and a non-empty heap
-		r1.guard(f, "heap.Pop", pops, "!now.Before(NextExpiry())", edgeBool(isCallResult(0, "(time.Time).Before"), false), nil)
+		r1.guard(f, "heap.Pop", pops, "!now.Before(NextExpiry())", edgeExcl(func(v ssa.Value) bool { return isParamVar(c, v, "now") }, isCallResult(0, pa("NextExpiry")), ordLT), nil)
 	}
 	if f := r1.need(pa("Pop")); f != nil {
 		ok := false
@@ -243,9 +243,9 @@ func checkC09(c *Ctx, r *Report) {
 	lockRule(c, r3, lockSpec{Pkg: dsP, Type: "addrsRecord", Mutex: "RWMutex", Guarded: []string{"dirty"},
 		Owned: map[string][]string{dsP + "/pb.AddrBookRecord": {"Addrs", "CertifiedRecord"}},
 		Exempt: map[string]string{
-			"(*" + dsP + ".dsAddrBook).loadRecord": "the record is built / loaded here and not yet handed out (or is returned under the cache's own synchronisation)",
-			"(*" + dsP + ".dsAddrBookGc).purgeLookahead":  "GC works on records it unmarshalled itself (not in the cache) or locks cached ones explicitly (checked where the lock is taken)",
-			"(*" + dsP + ".dsAddrBookGc).purgeStore":      "records unmarshalled locally by the GC cycle",
+			"(*" + dsP + ".dsAddrBook).loadRecord":          "the record is built / loaded here and not yet handed out (or is returned under the cache's own synchronisation)",
+			"(*" + dsP + ".dsAddrBookGc).purgeLookahead":    "GC works on records it unmarshalled itself (not in the cache) or locks cached ones explicitly (checked where the lock is taken)",
+			"(*" + dsP + ".dsAddrBookGc).purgeStore":        "records unmarshalled locally by the GC cycle",
 			"(*" + dsP + ".dsAddrBookGc).populateLookahead": "records unmarshalled locally by the GC cycle",
 		}})
 
@@ -321,7 +321,9 @@ func checkC09(c *Ctx, r *Report) {
 		r4.Fail("pstoreds mutators", token.NoPos, "expected four mutating functions", "")
 	}
 	if f := r4.need("(*" + dsP + ".dsAddrBook).ClearAddrs"); f != nil {
-		rm := findInstrs(f, func(in ssa.Instruction) bool { return calleeNameIs(in, "Remove") && recvIsField(in.(ssa.CallInstruction), dsP+".dsAddrBook.cache") })
+		rm := findInstrs(f, func(in ssa.Instruction) bool {
+			return calleeNameIs(in, "Remove") && recvIsField(in.(ssa.CallInstruction), dsP+".dsAddrBook.cache")
+		})
 		del := findInstrs(f, callPred("(github.com/ipfs/go-datastore.Write).Delete"))
 		w1, _ := (&Cut{Fn: f, Target: isRet, Sep: inSet(rm)}).Run(c)
 		w2, _ := (&Cut{Fn: f, Target: isRet, Sep: inSet(del)}).Run(c)
@@ -470,7 +472,10 @@ func checkC09(c *Ctx, r *Report) {
 			return
 		}
 		found := false
-		isNew := func(v ssa.Value) bool { fl, _ := loadOfField(strip2(v)); return fl != nil && fl.Name() == "Seq" && !stored(strip(v)) }
+		isNew := func(v ssa.Value) bool {
+			fl, _ := loadOfField(strip2(v))
+			return fl != nil && fl.Name() == "Seq" && !stored(strip(v))
+		}
 		isStored := func(v ssa.Value) bool { return stored(strip(v)) }
 		for _, b := range f.Blocks {
 			ifi, isIf := b.Instrs[len(b.Instrs)-1].(*ssa.If)
@@ -525,11 +530,15 @@ func checkC09(c *Ctx, r *Report) {
 		}
 	}
 	if f := r7.need(mab("maybeDeleteSignedPeerRecordUnlocked")); f != nil {
-		dels := findInstrs(f, func(in ssa.Instruction) bool { return isCallTo(in, "builtin.delete") && isFieldWrite(in, mabT+".signedPeerRecords") })
+		dels := findInstrs(f, func(in ssa.Instruction) bool {
+			return isCallTo(in, "builtin.delete") && isFieldWrite(in, mabT+".signedPeerRecords")
+		})
 		r7.guard(f, "delete(signedPeerRecords, p)", dels, "len(addrs[p]) == 0", edgeIntBound(isLenCall, 0, 0, true), nil)
 	}
 	if f := r7.need(mab("ClearAddrs")); f != nil {
-		dels := findInstrs(f, func(in ssa.Instruction) bool { return isCallTo(in, "builtin.delete") && isFieldWrite(in, mabT+".signedPeerRecords") })
+		dels := findInstrs(f, func(in ssa.Instruction) bool {
+			return isCallTo(in, "builtin.delete") && isFieldWrite(in, mabT+".signedPeerRecords")
+		})
 		w, _ := (&Cut{Fn: f, Target: isRet, Sep: inSet(dels)}).Run(c)
 		r7.Check(len(dels) == 1 && w == "", mab("ClearAddrs")+": drops the signed record", f.Pos(), 1, "", "", "")
 	}
